@@ -192,18 +192,22 @@ def range_proofs(ctx):
     import shutil, subprocess, re
     wd = os.path.join(ctx.work, "proofs_range")
     shutil.copytree(os.path.join(core.SPEC, "proofs"), wd, ignore=shutil.ignore_patterns(".tlacache"))
-    for mod in ("RangeCore.tla", "RangeSeal.tla"):
+    # RangeMessage: DecoderStep lifted to the machine that decodes an unbounded message (inductive invariant T <= range, off < range:
+    # one word of renormalisation always suffices, no underflow, the point never leaves the interval)
+    for mod in ("RangeCore.tla", "RangeSeal.tla", "RangeMessage.tla"):
         p = subprocess.run(["timeout", "1500", "tlapm", "--threads", "6", "--cleanfp", mod], cwd=wd, stdout=subprocess.PIPE, stderr=subprocess.STDOUT, text=True)
         m = re.search(r"All (\d+) obligations proved", p.stdout)
         if not m:
             raise core.ToolError("TLAPS did not prove spec/proofs/%s:\n" % mod + p.stdout[-1500:])
         ctx.classes["tlaps_obligations_proved"] = ctx.classes.get("tlaps_obligations_proved", 0) + int(m.group(1))
+        ctx.classes["tlaps_" + mod[:-4]] = int(m.group(1))
     ctx.assumptions.append("TLAPS 1.6 (SMT back end Z3) checks proofs correctly")
+    ctx.require("tlaps_RangeMessage", 120)
     for (w, s, md) in [(2, 4, 3), (3, 6, 1), (2, 6, 1)] + ([(2, 6, 2), (2, 8, 1)] if ctx.tier == "thorough" else []):
         st = ctx.tlc("MC_RangeBridge", {"W": w, "S": s, "MaxData": md}, invariants=["DecBridge", "EncBridge", "SealBridge"], workers=12, timeout=3000, label="MC_RangeBridge_%d_%d" % (w, s))
         if st["spec_violation"]:
             raise core.ToolError("MC_RangeBridge: Range.tla does not compute the step proved in spec/proofs at W=%d S=%d:\n%s" % (w, s, st.get("counterexample", "")))
-    ctx.require("tlaps_obligations_proved", 500)
+    ctx.require("tlaps_obligations_proved", 650)
 
 
 def ans_proofs(ctx):
